@@ -164,7 +164,7 @@ def run_c05(tier):
     # third part, derived rather than observed: the mania pattern generators cannot reach `assert!(has_valid_column)`, an endless
     # column search or a wrapped column, whatever the RNG draws (ManiaPatterns.tla; bound to the code by C19's trace validation)
     pid = os.getpid()
-    for (k, maxspan) in ([(4, 3), (5, 3)] if tier == "quick" else [(1, 3), (2, 5), (3, 5), (4, 5), (5, 5), (6, 3), (7, 3), (8, 3)]):
+    for (k, maxspan) in ([(4, 3), (5, 3)] if tier == "quick" else [(1, 3), (2, 5), (3, 5), (4, 5), (5, 5), (6, 3), (7, 3), (8, 3), (9, 1), (10, 1)]):
         cfgp = os.path.join(common.OUT, "MC_ManiaPatterns_C05_%d_%s_%d.cfg" % (k, tier, pid))
         with open(cfgp, "w") as f:
             f.write("CONSTANTS\n  K = %d\n  MaxSpan = %d\nINIT Init\nNEXT Next\nVIEW StateView\nINVARIANT NoPanicInRange\nINVARIANT PrevInRange\nCHECK_DEADLOCK FALSE\n" % (k, maxspan))
